@@ -3,6 +3,7 @@ import NavisModel.Proofs.HealMinLemmas
 import NavisModel.Proofs.HealStitchLemmas
 import NavisModel.Proofs.HealStitchWfLemmas
 import NavisModel.Proofs.HealCheckerLemmas
+import NavisModel.Proofs.HealHistoryLemmas
 import NavisModel.Gen.Heal
 /-!
 # C11 — healing and stitching connect fragments minimally and lose nothing
@@ -575,6 +576,67 @@ theorem gen_fragment_sizes (size k num den : Nat) :
   · unfold Gen.Heal.fluffKeeps; simp
   · unfold Gen.Heal.fluffIsFraction; simp
 
+
+/-! ### final pass: histories, the `min_size` clause of `break_fragments`, checker completeness -/
+
+/-- **Any history of healing calls** (arbitrary options each time) keeps every node where it is, keeps every edge of
+the ORIGINAL skeleton, never increases the number of fragments, yields a well-formed forest, and every fragment it
+loses is paid for by exactly one new edge (#edges + #roots is invariant). -/
+theorem heal_history (t : Table) (hw : WF t) (os : List Opts) :
+    WF (healSeq t os) ∧
+    (healSeq t os).map (fun n => (n.id, n.x, n.y, n.z)) = t.map (fun n => (n.id, n.x, n.y, n.z)) ∧
+    (∀ e ∈ uedges t, e ∈ uedges (healSeq t os)) ∧
+    (roots (healSeq t os)).length ≤ (roots t).length ∧
+    (uedges (healSeq t os)).length + (roots (healSeq t os)).length = (uedges t).length + (roots t).length :=
+  healSeq_spec hw os
+
+/-- Healing is idempotent once one tree is reached: after an unlimited healing (no `max_dist`, `min_size`, `mask`, node
+list) every further history of healing calls — with any options — returns the same table. -/
+theorem heal_idempotent_after_unlimited (t : Table) (hw : WF t) (hne : t ≠ []) (o : Opts) (hmax : o.maxD2 = none)
+    (hmin : o.minSize = none) (hmask : o.mask = none) (hmeth : o.method = .all ∨ o.method = .leafs) (os : List Opts) :
+    healSeq (heal t o) os = heal t o ∧ (breakFragments (heal t o) 0).length = 1 := by
+  have h1 := heal_single_tree t hw hne o hmax hmin hmask hmeth
+  exact ⟨healSeq_of_single (by omega) os, by rw [breakFragments_length, h1]⟩
+
+/-- A skeleton that is already one tree (or empty) is returned unchanged by every healing call. -/
+theorem heal_single_fragment_untouched (t : Table) (h : (roots t).length ≤ 1) (o : Opts) : heal t o = t :=
+  heal_of_single h o
+
+/-- **`break_fragments(min_size=k)`: the size test is the source's `len(cc) >= min_size`** (`Gen.Heal.breakKeeps`,
+re-extracted): a piece is returned iff its component has AT LEAST `k` nodes — a component of exactly `k` nodes is
+kept — and the number of pieces is the number of such components. -/
+theorem break_fragments_min_size (t : Table) (k : Nat) :
+    (∀ p, p ∈ breakFragments t k ↔
+      ∃ r ∈ roots t, Gen.Heal.breakKeeps (fragment t r).length k = true ∧ p = subsetIds t (fragment t r)) ∧
+    (∀ r ∈ roots t, (fragment t r).length = k → subsetIds t (fragment t r) ∈ breakFragments t k) ∧
+    (breakFragments t k).length = ((roots t).filter fun r => Gen.Heal.breakKeeps (fragment t r).length k).length := by
+  refine ⟨?_, ?_, ?_⟩
+  · intro p
+    rw [mem_breakFragments]
+    constructor
+    · rintro ⟨r, hr, hk, rfl⟩; exact ⟨r, hr, decide_eq_true hk, rfl⟩
+    · rintro ⟨r, hr, hk, rfl⟩; exact ⟨r, hr, of_decide_eq_true hk, rfl⟩
+  · intro r hr hk
+    exact mem_breakFragments.mpr ⟨r, hr, by omega, rfl⟩
+  · exact breakFragments_count t k
+
+/-- **Checker completeness on the model**: `healOKB` accepts the table the modelled algorithm computes, for every
+well-formed forest and all options (so the checker is satisfiable on every input and never rejects the algorithm as
+written). -/
+theorem healOKB_complete_on_model (t : Table) (hw : WF t) (o : Opts) : healOKB t (heal t o) o.maxD2 = true :=
+  healOKB_complete hw o
+
+/-- … and so does the minimality checker `healMinOKB`: every bridging edge of the model passes the "allowed
+connection" test and the length multiset test, for every well-formed forest and all options. Together with
+`healMinOKB_checker_sound` the checker accepts the algorithm as written and only minimal healings. -/
+theorem healMinOKB_complete_on_model (t : Table) (hw : WF t) (o : Opts) : healMinOKB t (heal t o) o = true :=
+  healMinOKB_complete hw o
+
+/-- The edges the model's result has in addition to the input are exactly the bridging edges. -/
+theorem heal_new_edges (t : Table) (hw : WF t) (o : Opts) :
+    (newEdges t (heal t o)).Perm (addedU (healAdded t o)) :=
+  newEdges_heal hw o
+
 /-! ### Non-vacuity -/
 
 /-- three fragments: a 3-chain, a 2-chain, an isolated node -/
@@ -673,5 +735,11 @@ example : (ids (combine 0 [sa, sb, sa]).nodes).Nodup ∧ stitchOKB [sa, sb, sa] 
 example : masterIxS .soma [sa, pb, sb] [false, false, true] = 2 ∧ masterIxS .soma [sa, pb, sb] [false, false, false] = 1 ∧
     masterIxS .largest [sa, pb, sb] [true, false, false] = 1 ∧ masterIxS .first [sa, pb, sb] [false, true, false] = 0 := by decide
 example : concatFaces 0 [(3, [(0, 1, 2)]), (4, [(0, 1, 2), (1, 2, 3)])] = [(0, 1, 2), (3, 4, 5), (4, 5, 6)] := by decide
+
+/-! final pass -/
+example : healSeq ex [{ maxD2 := some 101 }, { method := .leafs }, {}] = heal (heal ex { maxD2 := some 101 }) { method := .leafs } := by decide
+example : (breakFragments ex 2).length = 2 ∧ (breakFragments ex 3).length = 1 ∧ (breakFragments ex 4).length = 0 := by decide
+example : healOKB ex (heal ex { maxD2 := some 101, method := .leafs }) (some 101) = true := by decide
+example : healMinOKB ex (heal ex { maxD2 := some 101, method := .leafs }) { maxD2 := some 101, method := .leafs } = true := by decide
 
 end Navis.Props.C11
